@@ -31,9 +31,16 @@ Definition T1 (s : tstate) (sk : list tstate) (t : tok) (s1 : tstate) (sk1 : lis
 Lemma scan_scalar_kind s t rest : scan_scalar s = Some (t, rest) -> match t with TDelim _ _ => False | _ => True end.
 Proof.
   unfold scan_scalar. destruct s as [|c r]; [discriminate|]. cbv zeta.
-  repeat match goal with |- context [if ?c then _ else _] => destruct c end;
-  repeat match goal with |- context [option_map _ ?x] => destruct x as [[? ?]|] end; cbn;
-  try discriminate; intro H; inversion H; subst; exact I.
+  destruct (bZ c =? 34).
+  { destruct (scan_string _ r) as [[o t0]|]; cbn; [|discriminate]. intro H. inversion H. exact I. }
+  destruct (bZ c =? 116).
+  { destruct (strip_prefix _ _); cbn; [|discriminate]. intro H. inversion H. exact I. }
+  destruct (bZ c =? 102).
+  { destruct (strip_prefix _ _); cbn; [|discriminate]. intro H. inversion H. exact I. }
+  destruct (bZ c =? 110).
+  { destruct (strip_prefix _ _); cbn; [|discriminate]. intro H. inversion H. exact I. }
+  destruct ((bZ c =? 45) || is_digit c); [|discriminate].
+  destruct (scan_number (c :: r)) as [[l t0]|]; cbn; [|discriminate]. intro H. inversion H. exact I.
 Qed.
 
 Lemma token1_inv d t d1 : token1 d = Tk t d1 -> T1 (st d) (stk d) t (st d1) (stk d1).
@@ -131,12 +138,12 @@ Proof.
     + (* closing delimiter *)
       inversion H; subst. split; [exact I|]. cbn [T1] in HT. destruct HT as [Hs [p [Hsk Hs1]]].
       destruct He as [-> | [[E1 ->] | [[E1 ->] | [E1 ->]]]];
-        destruct curly; destruct Hs as [Hs | Hs]; try discriminate; rewrite ?Hs; cbn; left; split; eauto.
+        destruct curly; destruct Hs as [Hs | Hs]; try discriminate; rewrite ?Hs, ?E1; cbn; try exact I; left; split; eauto.
     + (* string *)
       cbn in H. inversion H; subst. split; [reflexivity|]. cbn [T1] in HT.
       destruct HT as [[Hs [Hs1 Hsk1]] | [Hva [Hs1 Hsk1]]].
       * destruct He as [-> | [[E1 ->] | [[E1 ->] | [E1 ->]]]]; destruct Hs as [Hs | Hs]; try discriminate;
-          rewrite ?Hs, ?E1; right; split; eauto.
+          rewrite ?Hs, ?E1; cbn; try exact I; right; split; eauto.
       * destruct He as [-> | [[E1 ->] | [[E1 ->] | [E1 ->]]]]; try rewrite E1; try discriminate;
           destruct (st d); try discriminate; cbn in *; try (split; [congruence|auto]); try (right; split; [congruence|auto]); auto.
     + (* number *)
@@ -197,15 +204,14 @@ Proof.
   assert (HP : forall f, (forall d, hn f d <> Panic) /\ (forall d acc, ho f d acc <> Panic) /\ (forall d acc, ha f d acc <> Panic)).
   { induction f as [|f [IHn [IHo IHa]]]; [repeat split; intros; discriminate|].
     repeat split.
-    - intro d. rewrite hn_S. destruct (token d) as [| |t d1]; try discriminate.
-      destruct t as [[|] [|] | s | lit | b |]; try discriminate; auto.
+    - intro d. rewrite hn_S. destruct (token d) as [| |tk d1]; try discriminate.
+      destruct tk as [[|] [|] | s | lit | b |]; try discriminate; auto.
       cbn. destruct (parse_int64 lit); [discriminate|]. destruct (parse_float lit); discriminate.
-    - intros d acc. rewrite ho_S. specialize (IHn d).
+    - intros d acc. rewrite ho_S. pose proof (IHn d) as Hd.
       destruct (hn f d) as [[[v|] d1]|e|]; try discriminate; try congruence.
-      destruct v; try discriminate. specialize (IHn d1).
-      destruct (hn f d1) as [[vo2 d2]|e|] eqn:E2; try discriminate; auto.
-      intro. apply (IHn eq_refl).
-    - intros d acc. rewrite ha_S. specialize (IHn d).
+      destruct v; try discriminate. pose proof (IHn d1) as Hd1.
+      destruct (hn f d1) as [[vo2 d2]|e|]; try discriminate; try congruence; auto.
+    - intros d acc. rewrite ha_S. pose proof (IHn d) as Hd.
       destruct (hn f d) as [[[v|] d1]|e|]; try discriminate; try congruence; auto. }
   unfold unmarshal_with. specialize (proj1 (HP (fuel_for t)) (mkDec TopValue [] t)).
   destruct (hn (fuel_for t) _) as [[vo d]|e|]; try discriminate; try congruence.
